@@ -33,6 +33,8 @@ pub struct ConvOpts {
     pub typed_parsers: bool,
     /// the `<files>... <target>` layout (multi-value positional before a required final one)
     pub low_index_multi: bool,
+    /// value terminators on multi-value positionals (`<m>... ; <target>`, `<m>... [;] -- <last>...`)
+    pub positional_terminators: bool,
 }
 
 impl Default for ConvOpts {
@@ -52,6 +54,7 @@ impl Default for ConvOpts {
             last_positional: true,
             typed_parsers: false,
             low_index_multi: true,
+            positional_terminators: false,
         }
     }
 }
@@ -214,6 +217,10 @@ fn conv_level(t: &mut Tape<'_>, o: &ConvOpts, depth: usize, name: &str) -> CmdSp
             ..Default::default()
         };
         m.num_args = Some((1, usize::MAX));
+        if o.positional_terminators && t.chance(1, 3) {
+            // with a terminator the look-ahead is off: the run ends at the terminator, then the target follows
+            m.value_terminator = Some(";".to_owned());
+        }
         c.args.push(m);
         c.args.push(ArgSpec {
             id: next_id(),
@@ -259,6 +266,16 @@ fn conv_level(t: &mut Tape<'_>, o: &ConvOpts, depth: usize, name: &str) -> CmdSp
         }
         if o.last_positional && t.chance(1, 4) {
             a.last = true;
+            if o.positional_terminators && t.chance(1, 3) {
+                // a terminated multi-value positional in front of the `last` one
+                c.args.push(ArgSpec {
+                    id: next_id(),
+                    action: if o.append_positionals && t.chance(1, 3) { Action::Append } else { Action::Set },
+                    num_args: Some((1, usize::MAX)),
+                    value_terminator: Some(";".to_owned()),
+                    ..Default::default()
+                });
+            }
         }
         c.args.push(a);
     }
@@ -595,7 +612,9 @@ pub fn gen_invocation(t: &mut Tape<'_>, spec: &CmdSpec, io: &InvOpts) -> Invocat
                         let d = if spec.settings.dont_delimit_trailing_values { None } else { p.value_delimiter };
                         gen_value(t, ValueKind::Wild, os, &[], d)
                     } else {
-                        let mut v = gen_value(t, ValueKind::Safe, os, &subs_avoid, p.value_delimiter);
+                        let mut avoid = subs_avoid.clone();
+                        avoid.extend(p.value_terminator.iter().cloned());
+                        let mut v = gen_value(t, ValueKind::Safe, os, &avoid, p.value_delimiter);
                         if looks_like_sub(level, &String::from_utf8_lossy(&v)) {
                             v = b"p1".to_vec();
                         }
@@ -625,7 +644,7 @@ pub fn gen_invocation(t: &mut Tape<'_>, spec: &CmdSpec, io: &InvOpts) -> Invocat
                 let (_, hi) = p.value_range();
                 let have: usize = before.iter().map(|o| if let Occ::Pos { arg, values } = o { if *arg == p.id { values.len() } else { 0 } } else { 0 }).sum();
                 let is_last_in_order = pos.iter().filter(|q| !q.last).count() == k;
-                if hi > 1 && have >= 1 && have < hi && is_last_in_order {
+                if hi > 1 && have >= 1 && have < hi && is_last_in_order && p.value_terminator.is_none() {
                     let os = p.parser == ParserSpec::OsStr;
                     let d = if spec.settings.dont_delimit_trailing_values { None } else { p.value_delimiter };
                     let n = t.range(1, (hi - have).min(3));
@@ -665,7 +684,8 @@ pub fn gen_invocation(t: &mut Tape<'_>, spec: &CmdSpec, io: &InvOpts) -> Invocat
             && pos[npos_spec - 2].value_range().1 > 1
             && !pos[npos_spec - 1].last
             && pos[npos_spec - 1].value_range().1 == 1;
-        if low_index_layout {
+        // (with a value terminator on the multi-value positional there is no look-ahead: the run ends at the terminator)
+        if low_index_layout && pos[npos_spec - 2].value_terminator.is_none() {
             let multi_id = pos[npos_spec - 2].id.clone();
             let last_id = pos[npos_spec - 1].id.clone();
             let first = occs.iter().position(|o| matches!(o, Occ::Pos { arg, .. } if *arg == multi_id));
@@ -795,17 +815,42 @@ pub fn spell(t: &mut Tape<'_>, spec: &CmdSpec, inv: &Invocation, stats: &mut Spe
                 cluster_prefix = Some(p);
             }
         }
+        // a terminated multi-value positional: the terminator is due before occurrence index `.0`
+        let mut term_due: Option<(usize, Bytes)> = None;
         while i < lv.occs.len() {
             let occ = &lv.occs[i];
             let next = lv.occs.get(i + 1);
             let next_is_sub = next.is_none() && lv.sub.is_some();
+            if let Some((at, term)) = term_due.clone() {
+                if at == i {
+                    argv.push(term);
+                    stats.terminator = true;
+                    term_due = None;
+                }
+            }
             match occ {
                 Occ::Escape => {
                     argv.push(b"--".to_vec());
                     i += 1;
                 }
-                Occ::Pos { values, .. } => {
+                Occ::Pos { arg, values } => {
                     argv.extend(values.iter().cloned());
+                    if let Some(a) = level.arg(arg) {
+                        if let (Some(term), true) = (&a.value_terminator, a.value_range().1 > 1) {
+                            // The run is closed by the terminator: needed before another positional, optional otherwise
+                            // (never while a further occurrence of this positional follows). It may come right after the
+                            // values or after flags that follow them directly (a flag does not take it as a value).
+                            let rest = &lv.occs[i + 1..];
+                            let upto = rest.iter().position(|o| matches!(o, Occ::Escape)).unwrap_or(rest.len());
+                            let later_same = rest[..upto].iter().any(|o| matches!(o, Occ::Pos { arg: b, .. } if b == arg));
+                            let must = rest[..upto].iter().any(|o| matches!(o, Occ::Pos { arg: b, .. } if b != arg));
+                            let flags = rest[..upto].iter().take_while(|o| matches!(o, Occ::Flag { .. })).count();
+                            if !later_same && (must || t.chance(1, 2)) {
+                                let k = t.range(0, flags);
+                                term_due = Some((i + 1 + k, term.as_bytes().to_vec()));
+                            }
+                        }
+                    }
                     i += 1;
                 }
                 Occ::Flag { arg } => {
@@ -827,6 +872,10 @@ pub fn spell(t: &mut Tape<'_>, spec: &CmdSpec, inv: &Invocation, stats: &mut Spe
                         i += 1;
                         continue;
                     }
+                    if let Some((at, _)) = &term_due {
+                        // a positional's terminator is due inside this run of flags: the cluster stops there
+                        shorts_run.truncate(at.saturating_sub(i));
+                    }
                     if let (Some(fe), true) = (&stats.flag_equals, stats.cur_level == stats.hook_level) {
                         // keep the marked flag out of clusters
                         if let Some(p) = shorts_run.iter().position(|f| f.id == *fe) {
@@ -844,7 +893,8 @@ pub fn spell(t: &mut Tape<'_>, spec: &CmdSpec, inv: &Invocation, stats: &mut Spe
                             tok.push(pick_short(t, f, stats));
                         }
                         // the cluster may end in an option
-                        if let Some(Occ::Opt { arg, values }) = lv.occs.get(i + n) {
+                        let term_here = term_due.as_ref().map(|(at, _)| *at == i + n).unwrap_or(false);
+                        if let (Some(Occ::Opt { arg, values }), false) = (lv.occs.get(i + n), term_here) {
                             let oa = level.arg(arg)?;
                             if oa.short.is_some() && t.chance(1, 2) {
                                 let nx = lv.occs.get(i + n + 1);
@@ -887,6 +937,11 @@ pub fn spell(t: &mut Tape<'_>, spec: &CmdSpec, inv: &Invocation, stats: &mut Spe
         }
         if let Some(p) = cluster_prefix.take() {
             argv.push(format!("-{p}").into_bytes());
+        }
+        if let Some((_, term)) = term_due.take() {
+            // due at the very end of the level
+            argv.push(term);
+            stats.terminator = true;
         }
         // ---- the subcommand token
         if let Some(name) = &lv.sub {
